@@ -32,7 +32,7 @@ theorem compressFrame_decodes {H : Type} (hash : Bool) (enc : BlockEnc H) (c : C
     (frame : List Byte) (c' : Compressor H)
     (hrun : compressFrame hash enc c w script data frags = .ok (frame, c')) :
     Spec.decodeFrame frame = some (specResult hash w data frame) := by
-  obtain ⟨e, he1, he31, hwd, _⟩ := windowDescriptor_spec w hw
+  obtain ⟨e, he1, he31, hwd, _, _⟩ := headerDescriptor_spec w hw
   have hdw : declaredWindow w = 2 ^ (10 + e) := declaredWindow_of w e hwd
   unfold compressFrame at hrun
   simp only [frameHeader, hwd, frameResetsMatcher_eq, frameResetsHuff_eq, frameReseedsHasher_eq, ↓reduceIte] at hrun
@@ -86,7 +86,7 @@ theorem compressFrame_no_fault {H : Type} (hash : Bool) (enc : BlockEnc H) (c : 
     (htotal : ∀ last blk i st, blk ≠ [] → blk.length ≤ (script i).space →
       ∃ r, emitBlock c.level enc last blk (script i).parse st = .ok r) :
     ∃ frame c', compressFrame hash enc c w script data frags = .ok (frame, c') := by
-  obtain ⟨e, _, _, hwd, _⟩ := windowDescriptor_spec w hw
+  obtain ⟨e, _, _, hwd, _, _⟩ := headerDescriptor_spec w hw
   unfold compressFrame
   simp only [frameHeader, hwd]
   split
